@@ -269,6 +269,10 @@ class JobServerSemaphore:
             while self.__waitersCnt:
                 self.__tokens.append(os.read(self.__fds[0], 1))
                 self.__waitersCnt -= 1
+                # The slot is granted to the waiter right now. Count it here
+                # and not when the waiter resumes. Otherwise the implicit slot
+                # accounting of the recursive mode is wrong in between.
+                self.__acquired += 1
                 self.__sem.release()
         except BlockingIOError:
             pass
@@ -288,7 +292,8 @@ class JobServerSemaphore:
                     JobServerSemaphore.jobavailableCallback, self)
             self.__waitersCnt += 1
             await self.__sem.acquire()
-            pass
+            # Already counted by whoever handed the slot over to us.
+            return
         self.__acquired += 1
 
     async def __aenter__(self):
@@ -303,6 +308,9 @@ class JobServerSemaphore:
            self.__sem.release()
            if self.__waitersCnt == 0:
                asyncio.get_event_loop().remove_reader(self.__fds[0])
+           # Our slot (and token) is handed over to the waiter. It stays
+           # counted until the new owner releases it.
+           return
         else:
             if not self.__recursive or self.__acquired > 1:
                 os.write(self.__fds[1], self.__tokens.pop())
